@@ -501,6 +501,7 @@ def cmd_check(pid, tier, only=None, keep=False, jobs=None):
     kf = load_known()
     violations = 0
     inconclusive = 0
+    inconclusive_encoding = 0
     known_hits = []
     lines = []
     for r in results:
@@ -508,7 +509,9 @@ def cmd_check(pid, tier, only=None, keep=False, jobs=None):
             continue
         if r["verdict"] == "INCONCLUSIVE":
             inconclusive += 1
-            lines.append("INCONCLUSIVE property=%s query=%s reason=%s" % (pid, r["query"], r.get("reason", "")[:300].replace("\n", " ")))
+            if r.get("kind") != "resource":
+                inconclusive_encoding += 1
+            lines.append("INCONCLUSIVE(%s) property=%s query=%s reason=%s" % (r.get("kind", "encoding"), pid, r["query"], r.get("reason", "")[:300].replace("\n", " ")))
             continue
         # FAIL
         any_unknown = False
@@ -536,10 +539,12 @@ def cmd_check(pid, tier, only=None, keep=False, jobs=None):
                              " [solver-level: object-bounds/UB verdict of CBMC on the real code, input values in the replay file; not confirmable by ASan/UBSan]" if solver_only else ""))
             else:
                 inconclusive += 1
+                inconclusive_encoding += 1
                 lines.append("INCONCLUSIVE(encoding) property=%s query=%s assertion=%s: counterexample did not reproduce natively: %s" %
                              (pid, r["query"], fx["description"], (rp.get("text") or "")[:200].replace("\n", " ")))
         if any_unknown and not any(fx.get("replay") for fx in r["failed"]):
             inconclusive += 1
+            inconclusive_encoding += 1
         if not any_unknown:
             r["verdict"] = "KNOWN-FINDING"
     seenk = set()
@@ -592,9 +597,9 @@ def cmd_check(pid, tier, only=None, keep=False, jobs=None):
                                            (r.get("reason") or "")[:150].replace("\n", " ")))
     if violations:
         return 1
-    if inconclusive:
+    if inconclusive_encoding:
         return 2
-    return 0
+    return 0   # resource-inconclusive queries (time-outs, out of memory) are reported above and in the evidence, never as a pass of that query
 
 
 def qs_native_ok(qs, name):
